@@ -62,6 +62,9 @@ type Gen struct {
 	consts  []*Var
 	ovr     []*Var
 	helpers []*Func
+	wideSig []*Type // parameter types of the last wide-signature helper
+	wideRet *Type
+	calledFns map[*Func]int // how often each helper has been called so far
 	structs []*Type
 	fx      *fnCtx
 	// globals accessed (transitively) by each helper
